@@ -2408,4 +2408,9 @@ pub mod verif {
             .map(|(d, p)| (d, p.addr))
             .collect()
     }
+
+    /// The addresses a behaviour put into its [`DialOpts`](crate::dial_opts::DialOpts).
+    pub fn dial_opts_addresses(opts: &crate::dial_opts::DialOpts) -> Vec<libp2p_core::Multiaddr> {
+        opts.get_addresses()
+    }
 }
